@@ -141,8 +141,11 @@ def body(case, ctx, tmp):
         os.chdir(tmp)
         ctx.count("savers_with_relative_folder")
     try:
-        saver = ModelSaver(psv, "models" if rel_folder else folder, "ep_{}.pt", save_initial=save_initial, metadata=md_obj,
-                           metadata_only=(md_mode == "only"))
+        if i % 3 == 1:  # positional form of the documented signature
+            saver = ModelSaver(psv, "models" if rel_folder else folder, "ep_{}.pt", save_initial, md_obj, md_mode == "only")
+        else:
+            saver = ModelSaver(psv, "models" if rel_folder else folder, "ep_{}.pt", save_initial=save_initial, metadata=md_obj,
+                               metadata_only=(md_mode == "only"))
     finally:
         if rel_folder:
             os.makedirs(os.path.join(tmp, "elsewhere"), exist_ok=True)
